@@ -24,6 +24,10 @@ for id in $ids; do
   for c in $checks; do
     s=$(date +%s)
     ./vcheck $c $tier > $S/run.log 2>&1; rc=$?
+    if [ $rc -eq 0 ] && [ -n "$VERIF_FAILFAST" ]; then
+      # the first violating shard may hold only cases that need the rest of the run to reproduce: complete run
+      VERIF_FAILFAST= ./vcheck $c $tier > $S/run.log 2>&1; rc=$?
+    fi
     res="$res $c:rc=$rc:$(grep -c '^VIOLATION' $S/run.log)v:$(( $(date +%s) - s ))s"
   done
   git -C $S/repo reset -q --hard HEAD
